@@ -211,6 +211,32 @@ func c02Check(ctx *Ctx, idx int, cs coreCase) {
 		ctx.Rep.Fail(hx.Failure{Kind: "property-fails", Class: c02Class(cs, fail), Detail: fail, Case: full, Impl: failImpl, Index: idx})
 		return
 	}
+	// (2c) the values travel: every sub-request actually SENT carries the client's value (an
+	// explicit null is a value) for each client variable it declares
+	if gw, gerr := cf.F.NewGateway(fed.GatewayConfig{}); gerr == nil {
+		cf.F.ResetLogs()
+		fed.Do(gw, cs.Query, cs.Vars, cs.OpName)
+		for _, c := range cf.F.AllCalls() {
+			doc, perr := gqlparser.LoadQuery(cf.F.Services[c.Service].Schema, c.Query)
+			if perr != nil || len(doc.Operations) != 1 {
+				continue
+			}
+			for _, vd := range doc.Operations[0].VariableDefinitions {
+				want, provided := cs.Vars[vd.Variable]
+				if !provided || op.VariableDefinitions.ForName(vd.Variable) == nil {
+					continue
+				}
+				if vd.Variable == "id" && strings.Contains(c.Query, "node(id: $id)") {
+					continue // the executor's own $id
+				}
+				got, sent := c.Variables[vd.Variable]
+				if !sent || hx.Canon(got) != hx.Canon(want) {
+					ctx.Rep.Fail(hx.Failure{Kind: "property-fails", Class: c02Class(cs, fmt.Sprintf("declares $%s", vd.Variable)), Detail: fmt.Sprintf("a sub-request declares $%s but was sent without the client's value %s for it (sent: %v)", vd.Variable, hx.Canon(want), hx.Canon(c.Variables)), Case: full, Impl: c.Query, Index: idx})
+					return
+				}
+			}
+		}
+	}
 	// correspondence: the model's plan (shared with C01)
 	if ctx.Driver == nil {
 		return
@@ -261,6 +287,8 @@ func c02Class(cs coreCase, fail string) string {
 		return "var-default-dropped"
 	case hasFeature(cs, "directive-variable") && strings.Contains(fail, "is not defined"):
 		return "directive-variable-undeclared"
+	case strings.Contains(cs.Query, "$id:") && (strings.Contains(fail, "Variable \"$id\"") || strings.Contains(fail, "declares $id")):
+		return "variable-named-id"
 	}
 	return ""
 }
